@@ -201,20 +201,16 @@ fn is_nl(c: char) -> bool {
 }
 
 #[cfg(feature = "custom_syntax")]
-fn skip_nl(mut rest: &str) -> (bool, usize) {
-    let mut skip = 0;
-    let mut was_nl = false;
-    if let Some(new_rest) = rest.strip_prefix('\n') {
-        rest = new_rest;
-        skip += 1;
-        was_nl = true;
-    }
-    if let Some(new_rest) = rest.strip_prefix('\r') {
-        rest = new_rest;
-        skip += 1;
-        was_nl = true;
-    }
-    (was_nl || rest.is_empty(), skip)
+fn skip_nl(rest: &str) -> (bool, usize) {
+    // a line ends with `\r\n`, `\n` or a lone `\r`
+    let skip = if rest.starts_with("\r\n") {
+        2
+    } else if rest.starts_with(['\n', '\r']) {
+        1
+    } else {
+        0
+    };
+    (skip > 0 || rest.is_empty(), skip)
 }
 
 fn lstrip_block(s: &str) -> &str {
